@@ -46,6 +46,9 @@ type smsg struct {
 	tainted    bool
 	deliveries int
 	sentAt     int
+	// live: the message object ToProto handed out, kept by the "network" until delivery: it is a
+	// snapshot, whatever the producer does afterwards
+	live *sketchpb.Store
 }
 
 type snode struct {
@@ -456,6 +459,7 @@ func (x *storeExec) send(e engine.Event, nd *snode, sig string) {
 			panic(err)
 		}
 		m.data = b
+		m.live = pb
 	case "pbstream":
 		var buf bytes.Buffer
 		builder := sketchpb.NewStoreBuilder(&buf)
@@ -535,6 +539,10 @@ func (x *storeExec) deliver(e engine.Event, nd *snode, sig string) bool {
 		pb := &sketchpb.Store{}
 		if err := proto.Unmarshal(m.data, pb); err != nil {
 			x.fail("proto-unmarshal", sig, "bytes produced by the store do not unmarshal: "+err.Error(), "valid protobuf", hex.EncodeToString(m.data))
+		}
+		if m.live != nil && int(e.J)%2 == 0 {
+			pb = m.live // the object itself travelled (in-process hand-over), not its bytes
+			x.st.Probe("delivered-live-proto-object")
 		}
 		nd.each(func(s store.Store) { x.lib("MergeWithProto", sig, func() { store.MergeWithProto(s, pb) }) })
 	}
